@@ -2,9 +2,9 @@ package main
 
 import (
 	"fmt"
+	"go/types"
 	"os"
 	"sort"
-	"go/types"
 	"strings"
 
 	"golang.org/x/tools/go/ssa"
